@@ -11,13 +11,13 @@ DEMO=$(ls tests/seed_demo*.rs 2>/dev/null | head -1)
 NAME=$(basename "$DEMO" .rs)
 # make sure the change is applied
 git diff --quiet -- src && git apply _seed/patch.diff
-timeout 900 cargo test --offline --test "$NAME" >/tmp/confirm_with.log 2>&1 && W=pass || W=fail
+timeout 900 cargo test --offline --test "$NAME" >"$WT/_seed/confirm_with.log" 2>&1 && W=pass || W=fail
 # suite without the demo
-mv "$DEMO" /tmp/_demo_hold.rs
-timeout 1800 cargo test --workspace --no-fail-fast --offline >/tmp/confirm_suite.log 2>&1 && S=pass || S=fail
-mv /tmp/_demo_hold.rs "$DEMO"
-git diff -- src > /tmp/_seed_patch.diff
+mv "$DEMO" "$WT/_seed/_demo_hold.rs"
+timeout 1800 cargo test --workspace --no-fail-fast --offline >"$WT/_seed/confirm_suite.log" 2>&1 && S=pass || S=fail
+mv "$WT/_seed/_demo_hold.rs" "$DEMO"
+git diff -- src > "$WT/_seed/_cur_patch.diff"
 git checkout -q -- src
-timeout 900 cargo test --offline --test "$NAME" >/tmp/confirm_without.log 2>&1 && WO=pass || WO=fail
-git apply /tmp/_seed_patch.diff
+timeout 900 cargo test --offline --test "$NAME" >"$WT/_seed/confirm_without.log" 2>&1 && WO=pass || WO=fail
+git apply "$WT/_seed/_cur_patch.diff"
 echo "WITH=$W WITHOUT=$WO SUITE=$S"
